@@ -16,6 +16,9 @@ theories/Model/Expr.vos theories/Model/Expr.vok theories/Model/Expr.required_vos
 theories/Model/Simplify.vo theories/Model/Simplify.glob theories/Model/Simplify.v.beautified theories/Model/Simplify.required_vo: theories/Model/Simplify.v theories/Model/EvalImpl.vo
 theories/Model/Simplify.vio: theories/Model/Simplify.v theories/Model/EvalImpl.vio
 theories/Model/Simplify.vos theories/Model/Simplify.vok theories/Model/Simplify.required_vos: theories/Model/Simplify.v theories/Model/EvalImpl.vos
+theories/Model/SolverIO.vo theories/Model/SolverIO.glob theories/Model/SolverIO.v.beautified theories/Model/SolverIO.required_vo: theories/Model/SolverIO.v 
+theories/Model/SolverIO.vio: theories/Model/SolverIO.v 
+theories/Model/SolverIO.vos theories/Model/SolverIO.vok theories/Model/SolverIO.required_vos: theories/Model/SolverIO.v 
 theories/Proofs/BVLemmas.vo theories/Proofs/BVLemmas.glob theories/Proofs/BVLemmas.v.beautified theories/Proofs/BVLemmas.required_vo: theories/Proofs/BVLemmas.v theories/Spec/BV.vo
 theories/Proofs/BVLemmas.vio: theories/Proofs/BVLemmas.v theories/Spec/BV.vio
 theories/Proofs/BVLemmas.vos theories/Proofs/BVLemmas.vok theories/Proofs/BVLemmas.required_vos: theories/Proofs/BVLemmas.v theories/Spec/BV.vos
@@ -28,6 +31,12 @@ theories/Proofs/EvalProofs.vos theories/Proofs/EvalProofs.vok theories/Proofs/Ev
 theories/Proofs/ExprLemmas.vo theories/Proofs/ExprLemmas.glob theories/Proofs/ExprLemmas.v.beautified theories/Proofs/ExprLemmas.required_vo: theories/Proofs/ExprLemmas.v theories/Model/Expr.vo
 theories/Proofs/ExprLemmas.vio: theories/Proofs/ExprLemmas.v theories/Model/Expr.vio
 theories/Proofs/ExprLemmas.vos theories/Proofs/ExprLemmas.vok theories/Proofs/ExprLemmas.required_vos: theories/Proofs/ExprLemmas.v theories/Model/Expr.vos
+theories/Proofs/SolverIOProofs.vo theories/Proofs/SolverIOProofs.glob theories/Proofs/SolverIOProofs.v.beautified theories/Proofs/SolverIOProofs.required_vo: theories/Proofs/SolverIOProofs.v theories/Model/SolverIO.vo
+theories/Proofs/SolverIOProofs.vio: theories/Proofs/SolverIOProofs.v theories/Model/SolverIO.vio
+theories/Proofs/SolverIOProofs.vos theories/Proofs/SolverIOProofs.vok theories/Proofs/SolverIOProofs.required_vos: theories/Proofs/SolverIOProofs.v theories/Model/SolverIO.vos
 theories/Props/C06.vo theories/Props/C06.glob theories/Props/C06.v.beautified theories/Props/C06.required_vo: theories/Props/C06.v theories/Model/EvalImpl.vo theories/Proofs/EvalProofs.vo theories/Proofs/EvalImplProofs.vo
 theories/Props/C06.vio: theories/Props/C06.v theories/Model/EvalImpl.vio theories/Proofs/EvalProofs.vio theories/Proofs/EvalImplProofs.vio
 theories/Props/C06.vos theories/Props/C06.vok theories/Props/C06.required_vos: theories/Props/C06.v theories/Model/EvalImpl.vos theories/Proofs/EvalProofs.vos theories/Proofs/EvalImplProofs.vos
+theories/Props/C15.vo theories/Props/C15.glob theories/Props/C15.v.beautified theories/Props/C15.required_vo: theories/Props/C15.v theories/Model/SolverIO.vo theories/Proofs/SolverIOProofs.vo
+theories/Props/C15.vio: theories/Props/C15.v theories/Model/SolverIO.vio theories/Proofs/SolverIOProofs.vio
+theories/Props/C15.vos theories/Props/C15.vok theories/Props/C15.required_vos: theories/Props/C15.v theories/Model/SolverIO.vos theories/Proofs/SolverIOProofs.vos
